@@ -37,6 +37,9 @@ def r_polarity(repo, rep, R='R17.1'):
         for n_ in ast.walk(f_):
             if isinstance(n_, ast.DictComp) and isinstance(n_.value, ast.Call) and isinstance(n_.value.func, ast.Name):
                 d_ = mod.get(n_.value.func.id, required=False)
+                if d_ is None:
+                    local = [x for x in ast.walk(f_) if isinstance(x, ast.FunctionDef) and x.name == n_.value.func.id]
+                    d_ = local[0] if len(local) == 1 else None
                 if d_ is not None and d_ not in cands:
                     cands.append(d_)
         if len(cands) != 1:
@@ -74,7 +77,7 @@ def r_polarity(repo, rep, R='R17.1'):
     f = mod.get('apply_category_filters')
     wf = '%s:%s apply_category_filters' % (REL, f.lineno)
     stores = []
-    for st, o in SymExec(f, unroll=1).run():
+    for st, o in SymExec(f, unroll=1, no_inline=(MASK,)).run():
         for e in st.events:
             if e[0] == 'setitem':
                 stores.append((st, e))
@@ -82,7 +85,7 @@ def r_polarity(repo, rep, R='R17.1'):
     for st, e in stores:
         uniq.setdefault(id(e[-1]), (st, e))
     augs = {}
-    for st, o in SymExec(f, unroll=1).run():
+    for st, o in SymExec(f, unroll=1, no_inline=(MASK,)).run():
         for e in st.events:
             if e[0] == 'aug':
                 augs.setdefault(id(e[-1]), e)
@@ -96,7 +99,7 @@ def r_polarity(repo, rep, R='R17.1'):
         col = idx_t[1][1] if idx_t[0] == 'tuple' and len(idx_t[1]) == 2 else None
         if negated:
             col = col[2]
-        is_mask = col is not None and col[0] == 'sub' and col[1][0] == 'dictcomp' and col[1][2][0] == 'call' and col[1][2][1] in (N('_binarize'), N(MASK))
+        is_mask = col is not None and col[0] == 'sub' and col[1][0] == 'dictcomp' and col[1][2][0] == 'call' and (col[1][2][1] in (N('_binarize'), N(MASK)) or col[1][2][1][:2] == ('func', MASK))
         flattened_unlisted = is_mask and (mask_true_means_unlisted != negated)
         rep.check(flattened_unlisted and val == N('large_negative_value'), R, wf, 'filters:polarity',
                   'the cells set to large_negative_value are those of the categories NOT listed for the word',
@@ -127,9 +130,9 @@ def r_polarity(repo, rep, R='R17.1'):
             rep.check(ln_t is not None and 'shape' in show(ln_t) and show(ln_t).endswith('[1]'), 'R17.2', wf, 'filters:mask-length',
                       'the mask has one entry per tag column', 'mask length is %s' % (show(ln_t) if ln_t else None))
     # returns its inputs, validated first
-    rets = {show(st.ret) for st, o in SymExec(f, unroll=1).run() if o == 'return'}
+    rets = {show(st.ret) for st, o in SymExec(f, unroll=1, no_inline=(MASK,)).run() if o == 'return'}
     first_call = None
-    for st, o in SymExec(f, unroll=1).run():
+    for st, o in SymExec(f, unroll=1, no_inline=(MASK,)).run():
         calls = [e[1] for e in st.events if e[0] == 'call']
         if calls:
             first_call = calls[0]
@@ -196,20 +199,39 @@ def r_data(repo, rep, R='R17.3', only_well_formed=False):
 
 
 def r_loading(repo, rep, R='R17.3'):
-    """read_params builds dictionary and tables by parsing every string and erasing X / nb in seen rules"""
+    """read_params builds dictionary and tables by parsing every string and erasing X / nb in seen rules (judged on the
+    values its paths compute, helpers inlined -- wherever the comprehension lives)"""
+    from ..pysym import terms_of
     mod = repo.module('depccg/allennlp/utils.py')
     fn = mod.get('read_params')
     w = 'depccg/allennlp/utils.py:%s read_params' % fn.lineno
-    erase = [n for n in ast.walk(fn) if isinstance(n, ast.Call) and isinstance(n.func, ast.Attribute) and n.func.attr == 'clear_features'
-             and {a.value for a in n.args if isinstance(a, ast.Constant)} == {'X', 'nb'} and len(n.args) == 2
-             and isinstance(n.func.value, ast.Call) and src(n.func.value.func) == 'Category.parse']
-    in_pair = [n for n in ast.walk(fn) if isinstance(n, ast.SetComp) and isinstance(n.elt, ast.Tuple) and len(n.elt.elts) == 2
-               and all(e in erase for e in n.elt.elts)]
-    rep.check(len(erase) == 2 and len(in_pair) == 1, R, w, 'read_params:seen_rules',
+    comps = []
+    for st, o in SymExec(fn, unroll=1).run():
+        for t in terms_of(st):
+            for x in subterms(t):
+                if x[0] in ('setcomp', 'dictcomp', 'listcomp') and x not in comps:
+                    comps.append(x)
+    parse = A(N('Category'), 'parse')
+
+    def erased(t, it):
+        """Category.parse(<component of the element>).clear_features('X', 'nb')"""
+        return t[0] == 'call' and t[1][0] == 'attr' and t[1][2] == 'clear_features' and not t[3] and len(t[2]) == 2 \
+            and {a[1] for a in t[2] if a[0] == 'const'} == {'X', 'nb'} and t[1][1][0] == 'call' and t[1][1][1] == parse \
+            and len(t[1][1][2]) == 1 and t[1][1][2][0][0] == 'unpack' and t[1][1][2][0][1][0] == 'elem' and t[1][1][2][0][1][1] == it
+    seen = [c for c in comps if c[0] == 'setcomp' and len(c[2]) == 1 and "pop('seen_rules')" in show(c[2][0][0])]
+    ok = len(seen) == 1 and not seen[0][2][0][1] and seen[0][1][0] == 'tuple' and len(seen[0][1][1]) == 2 \
+        and all(erased(e, seen[0][2][0][0]) for e in seen[0][1][1]) and [e[1][1][2][0][2] for e in seen[0][1][1]] == [0, 1]
+    rep.check(ok, R, w, 'read_params:seen_rules',
               'seen rules are stored as pairs with X and nb erased on both sides (the key apply_binary_rules looks up)', 'seen-rule normalisation changed')
-    dc = [n for n in ast.walk(fn) if isinstance(n, ast.DictComp) and isinstance(n.value, ast.ListComp) and isinstance(n.value.elt, ast.Call)
-          and src(n.value.elt.func) == 'Category.parse' and "pop('cat_dict')" in src(n.generators[0].iter)]
-    unfiltered = len(dc) == 1 and not dc[0].value.generators[0].ifs and not dc[0].generators[0].ifs and len(dc[0].value.generators) == 1
+    dc = [c for c in comps if c[0] == 'dictcomp' and "pop('cat_dict')" in show(c[3][0][0])]
+    unfiltered = False
+    if len(dc) == 1:
+        key, val, gens = dc[0][1], dc[0][2], dc[0][3]
+        it = gens[0][0]
+        unfiltered = len(gens) == 1 and not gens[0][1] and it[0] == 'call' and it[1][0] == 'attr' and it[1][2] == 'items' \
+            and key == ('unpack', ('elem', it, key[1][2] if key[0] == 'unpack' and key[1][0] == 'elem' else None), 0) \
+            and val[0] == 'listcomp' and len(val[2]) == 1 and not val[2][0][1] and val[2][0][0][0] == 'unpack' and val[2][0][0][2] == 1 \
+            and val[1][0] == 'call' and val[1][1] == parse and len(val[1][2]) == 1 and val[1][2][0][0] == 'elem' and val[1][2][0][1] == val[2][0][0]
     rep.check(unfiltered, R, w, 'read_params:cat_dict', 'the dictionary maps each word to all of its listed categories, parsed (no entry or category is filtered out while loading)',
               'cat_dict loading drops or rewrites entries (comparison of raw spellings would e.g. lose the comma category, spelled ", " in targets.en)')
 
